@@ -98,14 +98,16 @@ def build(active_known=frozenset()):
     c.raises()
     c.ensures(
         "first deliver wins: an already delivered promise is left exactly as it was",
-        lambda a: z3.Implies(
+        # (a path that never takes the lock writes nothing - stores outside the lock are refused by the monitor - and is
+        # judged by the lock-discipline obligations, not by this clause, which speaks about the state found under the lock)
+        lambda a: z3.BoolVal(True) if acq(a) is None else z3.Implies(
             B(acq(a)["_is_delivered"]),
             z3.And(a.post.field(a.self, "_value") == acq(a)["_value"], B(a.post.field(a.self, "_is_delivered")), a.post.ghost("first") == acq(a)["first"]),
         ),
     )
     c.ensures(
         "an undelivered promise becomes delivered with exactly this value",
-        lambda a: z3.Implies(
+        lambda a: z3.BoolVal(True) if acq(a) is None else z3.Implies(
             z3.Not(B(acq(a)["_is_delivered"])),
             z3.And(B(a.post.field(a.self, "_is_delivered")), a.post.field(a.self, "_value") == a.value, a.post.ghost("first") == a.value),
         ),
